@@ -55,7 +55,7 @@ def run(ctx):
                 "nominal instance conforming and compared")
     ctx.defs_file()
     walk.CFGTYPES = {e["n"]: e["t"] for e in ctx.defs["cfgdb"]}
-    n = grammar(ctx, ("def", "variant", "msgid"), "C16")
+    n = grammar(ctx, ("def", "variant", "msgid", "cfg"), "C16")
     lays = [l for l in walk.load_layouts(ctx, "MC_Walk_quick.cfg") if l["c"] in (0, 1)]
     ctx.extra["unreachable_table_entries"] = sorted({"%s %s" % (("GET", "SET", "POLL")[l["m"]], l["name"]) for l in lays if not l["reachable"]})
     run_batch(ctx, MODULE, CFG, c02.cases(ctx, lays, ("zero", "one"), prop="C16"), walk.OBSERVERS, sigfn, c02.negfn, chunk=6000)
@@ -73,7 +73,7 @@ def replay(ctx, body):
     walk.CFGTYPES = {e["n"]: e["t"] for e in ctx.defs["cfgdb"]}
     if body["case"]["observer"] == "grammar":
         before = len(ctx.violations) + len(ctx.known_hits)
-        grammar(ctx, ("def", "variant", "msgid"), "C16")
+        grammar(ctx, ("def", "variant", "msgid", "cfg"), "C16")
         want = body["case"]["input"]
         ctx.violations = [v for v in ctx.violations if v["case"]["input"]["entry"] == want["entry"] and v["case"]["input"]["mode"] == want["mode"]]
         return
